@@ -78,10 +78,19 @@ var thoroughValidated = map[string]bool{
 	"*": true, "DBG": true, "DBG2": true,
 }
 
+// thoroughL3Validated: properties for which only the L3 harness (l3_api: concrete key sets --
+// all skeletons, every sweep size, the 30000-key set --, more option cases and run patterns) of
+// the thorough grids was run to completion, clean (2-3 minutes each with 8 workers); their L2
+// thorough grids stay in tier deep.
+var thoroughL3Validated = map[string]bool{"C01": true, "C02": true, "C09": true, "C18": true}
+
 func allSpecs() []*HarnessSpec {
 	ss := allSpecsRaw()
 	for _, s := range ss {
 		if !thoroughValidated[s.Property] && s.Thorough != nil {
+			if thoroughL3Validated[s.Property] && s.Name == "l3_api" {
+				continue
+			}
 			s.Deep, s.Thorough = s.Thorough, nil
 		}
 	}
